@@ -67,7 +67,17 @@ class Server:
         self._t2 = threading.Thread(target=self._pump_err, daemon=True)
         self._t2.start()
         if wait_listen:
-            self._ev.wait(timeout)
+            # the address normally comes from the "Listening..." log line; should the wording of the log ever change,
+            # the kernel's socket table says where the process (or a child: strace wrapper) listens
+            t0 = time.monotonic()
+            while time.monotonic() - t0 < timeout:
+                if self._ev.wait(0.25):
+                    break
+                if time.monotonic() - t0 > 2.0 and self.addr is None:
+                    ls = self.listening_sockets()
+                    if len(ls) == 1:
+                        self.addr = ls[0]
+                        break
 
     def _pump(self):
         for raw in self.proc.stdout:
@@ -101,6 +111,61 @@ class Server:
         if m:
             return m.group(1).strip("[]"), int(m.group(2))
         return None
+
+    def _pids(self):
+        """The process and its descendants."""
+        kids = {}
+        for d in os.listdir("/proc"):
+            if d.isdigit():
+                try:
+                    st = open("/proc/%s/stat" % d).read()
+                    ppid = int(st[st.rindex(")") + 2:].split()[1])
+                    kids.setdefault(ppid, []).append(int(d))
+                except (OSError, ValueError, IndexError):
+                    pass
+        out, todo = [], [self.proc.pid]
+        while todo:
+            x = todo.pop()
+            out.append(x)
+            todo += kids.get(x, [])
+        return out
+
+    def listening_sockets(self):
+        """(host, port) of every TCP socket in LISTEN state owned by the process tree (from /proc)."""
+        inodes = set()
+        for pid in self._pids():
+            try:
+                for fd in os.listdir("/proc/%d/fd" % pid):
+                    try:
+                        t = os.readlink("/proc/%d/fd/%s" % (pid, fd))
+                    except OSError:
+                        continue
+                    if t.startswith("socket:["):
+                        inodes.add(t[8:-1])
+            except OSError:
+                pass
+        res = []
+        for fn, v6 in (("/proc/net/tcp", False), ("/proc/net/tcp6", True)):
+            try:
+                rows = open(fn).read().splitlines()[1:]
+            except OSError:
+                continue
+            for r in rows:
+                f = r.split()
+                if len(f) > 9 and f[3] == "0A" and f[9] in inodes:
+                    hx, port = f[1].rsplit(":", 1)
+                    raw = bytes.fromhex(hx)
+                    if v6:
+                        b = b"".join(raw[i:i + 4][::-1] for i in range(0, 16, 4))
+                        host = socket.inet_ntop(socket.AF_INET6, b)
+                        if host == "::":
+                            host = "::1"
+                    else:
+                        host = socket.inet_ntop(socket.AF_INET, raw[::-1])
+                        if host == "0.0.0.0":
+                            host = "127.0.0.1"
+                    res.append((host, int(port, 16)))
+        return sorted(set(res))
 
     def alive(self):
         return self.proc.poll() is None
